@@ -19,7 +19,7 @@ EXTENDS Naturals, Sequences, FiniteSets, TLC, SequencesExt
 Lower(s) == CASE s = "EXAMPLE.com" -> "example.com" [] s = "Example.COM" -> "example.com"
               [] s = "AB.example.com" -> "ab.example.com"
               [] s = "V" -> "v" [] s = "xVx" -> "xvx"
-              [] s = "/A" -> "/a" [] s = "/X/AB" -> "/x/ab" [] s = "/x/AB" -> "/x/ab"
+              [] s = "/A" -> "/a" [] s = "/X/AB" -> "/x/ab" [] s = "/x/AB" -> "/x/ab" [] s = "/X/ab" -> "/x/ab" [] s = "/X/ab/y" -> "/x/ab/y"
               [] s = "X-K" -> "x-k" [] s = "X-J" -> "x-j"
               [] s = "K-AB" -> "k-ab" [] s = "K-ab" -> "k-ab" [] s = "K-@m" -> "k-@m"
               [] OTHER -> s
@@ -31,6 +31,9 @@ DynPathMatches(ic, pat, p) ==
   LET x == IF ic THEN Lower(p) ELSE p IN
   CASE pat = "/x/@m"   -> x \in {"/x/ab", "/x/a"}
     [] pat = "/x/@m/y" -> x \in {"/x/ab/y"}
+    \* upper-case literal in the pattern: without the flag only the exact spelling matches
+    [] pat = "/X/@m"   -> IF ic THEN x \in {"/x/ab", "/x/a"} ELSE p \in {"/X/ab"}
+    [] pat = "/X/@m/y" -> IF ic THEN x \in {"/x/ab/y"} ELSE p \in {"/X/ab/y"}
     [] OTHER -> FALSE
 
 \* networks and addresses
